@@ -1,4 +1,7 @@
 // ---- prelude/libxcp_40_walk.rs: walkdir stand-ins and the path-mapping rule (C02) ----
+/// A-walk: the walk of a root is a fixed finite sequence of items (entries or errors), determined by the root and the filter in force
+pub uninterp spec fn walk_seq(root: PathKey) -> Seq<std::result::Result<walkdir::DirEntry, walkdir::Error>>;
+
 pub mod walkdir {
     use super::*;
     #[verifier::external_body]
@@ -10,7 +13,54 @@ pub mod walkdir {
     }
     #[verifier::external_body]
     pub struct Error { x: u8 }
+
+    #[verifier::external_body]
+    pub struct WalkDir { x: u8 }
+    impl WalkDir {
+        pub uninterp spec fn root(&self) -> PathKey;
+        #[verifier::external_body]
+        pub fn new(p: &Path) -> (r: WalkDir) ensures r.root() == p.key() { unimplemented!() }
+        #[verifier::external_body]
+        pub fn into_iter(self) -> (r: IntoIter) ensures r.root() == self.root() { unimplemented!() }
+    }
+    #[verifier::external_body]
+    pub struct IntoIter { x: u8 }
+    impl IntoIter {
+        pub uninterp spec fn root(&self) -> PathKey;
+        /// filter_entry prunes *entries* the predicate rejects (and what lies beneath them); errors are passed through.
+        /// The filtered walk is what `walk_seq(root)` stands for.
+        #[verifier::external_body]
+        pub fn filter_entry<P: FnMut(&DirEntry) -> bool>(self, pred: P) -> (r: FilterEntry) ensures r.root() == self.root(), walk_remaining(&r) == walk_seq(self.root()) { unimplemented!() }
+    }
+    #[verifier::external_body]
+    pub struct FilterEntry { x: u8 }
+    impl FilterEntry { pub uninterp spec fn root(&self) -> PathKey; }
+    pub uninterp spec fn walk_remaining(it: &FilterEntry) -> Seq<std::result::Result<DirEntry, Error>>;
+    impl Iterator for FilterEntry {
+        type Item = std::result::Result<DirEntry, Error>;
+        #[verifier::external_body]
+        fn next(&mut self) -> (r: Option<std::result::Result<DirEntry, Error>>) { unimplemented!() }
+    }
+    impl vstd::std_specs::iter::IteratorSpecImpl for FilterEntry {
+        open spec fn obeys_prophetic_iter_laws(&self) -> bool { true }
+        open spec fn remaining(&self) -> Seq<std::result::Result<DirEntry, Error>> { walk_remaining(self) }
+        open spec fn will_return_none(&self) -> bool { true }
+        open spec fn decrease(&self) -> Option<nat> { Some(walk_remaining(self).len()) }
+        open spec fn peek(&self, i: int) -> Option<std::result::Result<DirEntry, Error>> { if 0 <= i < walk_remaining(self).len() { Some(walk_remaining(self)[i]) } else { None } }
+    }
 }
+pub use walkdir::WalkDir;
+
+/// paths.rs: the `ignore` crate (TRUSTED, outside Verus): building the matcher may fail, asking it has no effect
+#[verifier::external_body]
+pub struct Gitignore { x: u8 }
+#[verifier::external_body]
+pub fn parse_ignore(source: &Path, config: &Config, Tracked(w): Tracked<&mut World>) -> (r: Result<Option<Gitignore>>)
+    ensures fr_ro(*old(w), *final(w)), final(w).faults == old(w).faults + (if r is Err { 1nat } else { 0 }),
+{ unimplemented!() }
+#[verifier::external_body]
+pub fn ignore_filter(entry: &walkdir::DirEntry, ignore: &Option<Gitignore>) -> (r: bool) { unimplemented!() }
+
 pub uninterp spec fn any_from_walk(e: walkdir::Error) -> AnyError;
 impl From<walkdir::Error> for AnyError { #[verifier::external_body] fn from(e: walkdir::Error) -> (r: AnyError) { unimplemented!() } }
 impl vstd::std_specs::convert::FromSpecImpl<walkdir::Error> for AnyError {
